@@ -15,7 +15,8 @@ PROPS = {
         "level": "proof",
         "verus": {
             "expr": ["Value::from_bool", "Value::to_bool", "UnOp::eval", "BinOp::eval",
-                     "Column::name", "Table::index_for_column_name", "Row::index", "Ast::eval"],
+                     "Column::name", "Table::index_for_column_name", "Row::index", "Ast::eval",
+                     "Expr::unop", "Expr::binop", "Expr::eval"],
         },
         "pairs": {"UnOp::eval": "c13_unop_total", "BinOp::eval": "c13_binop_total"},
     },
@@ -104,10 +105,11 @@ PROPS["C06"] = {
 
 PROPS["C17"] = {
     "level": "proof",
-    "verus": {},
+    "verus": {"language": ["Language::new", "Language::from_code", "Language::code", "Language::from_tag"]},
     "assumptions": [
         "std's binary_search_by_key returns Ok(i) only with key(i) == target and Err only when the target is absent from a sorted slice (the table's sortedness follows from lang_tag_matches_table holding for every code)",
-        "from_tag is checked only on the tags listed in the bounded harnesses (one from_tag call costs CBMC 20-60 s); arbitrary tag strings and the full table are NOT covered",
+        "from_tag is proved (Verus, all tag strings) RELATIVE to the table: language = first entry whose tag equals the part before the first '-', region = first sublanguage whose tag equals the whole tag, else that language's neutral code, else 0. That every table tag maps to ITS OWN code additionally needs the table facts 'tags are unique' and 'a sublanguage tag starts with its language tag + \"-\"' (the repository's own unit tests lang_tags_are_unique / sublang_tags_are_unique / sublang_tags_start_with_lang_tag check them; not re-proved here)",
+        "trusted shims: LANGUAGES reached through vx_languages(), tag.splitn(2,'-').collect() through vx_splitn2 (prelude/langtable.rs); the debug_assert in Language::new is dropped (x8drop) because it depends on table contents",
     ],
 }
 
